@@ -524,3 +524,122 @@ def expand_linspace(v, passes: int = 4):
             break
         v = v.subst(lambda r, mp=mp: sym.subst(r, mp))
     return v
+
+
+# --------------------------------------------------------------------------- two-dimensional layouts, element by element
+def matrix_form(t):
+    """(element(r, c) as a rational over the two index symbols, rows, columns) of a two-dimensional array built from linspace between two 1-D arrays
+    by transposition and prefix / window slicing; None when `t` is not such a construction.
+
+        linspace(S, E, K)[r, c] = S[c] + r * (E[c] - S[c]) / (K - 1)          (axis 0: one row per step, one column per pair of end points)"""
+    R_, C_ = sym.sym('$row'), sym.sym('$col')
+    t = arr_term(t)
+    if not isinstance(t, Term):
+        return None
+    if t.head == 'lib:numpy.linspace':
+        if {k_ for k_, _ in t.kwargs} - {'start', 'stop', 'num'} or len(t.args) > 3:
+            return None
+        s_, e_, k_ = targ(t, 'start', 0), targ(t, 'stop', 1), targ(t, 'num', 2)
+        if not (isinstance(s_, Num) and isinstance(e_, Num) and isinstance(k_, Num) and k_.length is None and s_.length is not None
+                and e_.length is not None and s_.length == e_.length):
+            return None
+        sc, ec = s_.at(C_).r, e_.at(C_).r
+        return sc + R_ * (ec - sc) / (k_.r - C(1)), k_.r, s_.length
+    if t.head == 'T' and len(t.args) == 1:
+        m = matrix_form(t.args[0])
+        if m is None:
+            return None
+        el, rows, cols = m
+        tmp = sym.sym('$swap')
+        el = sym.subst(sym.subst(sym.subst(el, {_one(R_): tmp}), {_one(C_): R_}), {_one(tmp): C_})
+        return el, cols, rows
+    if t.head == 'item' and len(t.args) == 2:
+        m = matrix_form(t.args[0])
+        if m is None:
+            return None
+        el, rows, cols = m
+        idx = t.args[1]
+        parts = list(idx.items) if isinstance(idx, Tup) else [idx]
+        if len(parts) > 2:
+            return None
+        for axis, sl in enumerate(parts):
+            if not (isinstance(sl, Term) and sl.head == 'slice' and len(sl.args) == 3):
+                return None
+            lo, hi, step = sl.args
+            if not (isinstance(step, Const) and step.v is None):
+                return None
+            extent = rows if axis == 0 else cols
+            if isinstance(lo, Const) and lo.v is None:
+                lo_r = C(0)
+            elif isinstance(lo, Num) and lo.length is None and not (lo.r.is_const() and lo.r.const_value() < 0):
+                lo_r = lo.r
+            else:
+                return None
+            if isinstance(hi, Const) and hi.v is None:
+                hi_r = extent
+            elif isinstance(hi, Num) and hi.length is None:
+                hi_r = extent + hi.r if (hi.r.is_const() and hi.r.const_value() < 0) else hi.r
+            else:
+                return None
+            ix = R_ if axis == 0 else C_
+            if not lo_r.is_zero():
+                el = sym.subst(el, {_one(ix): ix + lo_r})
+            if axis == 0:
+                rows = hi_r - lo_r
+            else:
+                cols = hi_r - lo_r
+        return el, rows, cols
+    return None
+
+
+def _one(r: Rat) -> int:
+    (a,) = r.atoms()
+    return a
+
+
+FLATTEN_HEADS = ('method:flatten', 'method:ravel', 'lib:numpy.ravel')
+
+
+def resolve_layout(v):
+    """a value in which every row-major flattening of a recognised two-dimensional construction is replaced by its element-wise closed form
+    flat[i] = M[i // columns, i % columns]; anything else is left as it is"""
+    def flat(t):
+        t0 = arr_term(t)
+        if not (isinstance(t0, Term) and (t0.head in FLATTEN_HEADS or (t0.head in ('method:reshape', 'lib:numpy.reshape') and _is_minus_one(t0)))):
+            return None
+        src = t0.args[0] if t0.args else t0.kw('a')
+        extra = [a_ for a_ in t0.args[1:]] + [v_ for k_, v_ in t0.kwargs if k_ not in ('a', 'order')]
+        if t0.head in FLATTEN_HEADS and extra:
+            return None
+        m = matrix_form(src)
+        if m is None:
+            return None
+        el, rows, cols = m
+        i = sym.idx()
+        r_ = sym.A('FloorDiv', i, cols)
+        c_ = i - cols * r_
+        out = sym.subst(sym.subst(el, {_one(sym.sym('$row')): r_}), {_one(sym.sym('$col')): c_})
+        return Num(out, rows * cols, 'ndarray')
+
+    def walk(x):
+        f = flat(x) if isinstance(x, (Num, Term)) else None
+        if f is not None:
+            return f
+        t = arr_term(x)
+        if isinstance(t, Term) and t.head == 'cat':
+            parts = [walk(p_) for p_ in t.args]
+            if any(p_ is not q_ for p_, q_ in zip(parts, t.args)):
+                from ..symeval import mk_cat
+                try:
+                    return mk_cat(parts)
+                except Exception:
+                    return x
+        return x
+    return walk(v)
+
+
+def _is_minus_one(t) -> bool:
+    shp = t.args[1] if len(t.args) > 1 else (t.kw('newshape') if t.kw('newshape') is not None else t.kw('shape'))
+    if isinstance(shp, Tup) and len(shp.items) == 1:
+        shp = shp.items[0]
+    return isinstance(shp, Num) and shp.is_const() and shp.const() == -1
